@@ -419,6 +419,39 @@ package forwarder
 //@ ensures !secret(result)
 //@ ensures hpu == nil ==> result == ""
 
+// Inline key material in the start-up log (C19): a flag that takes a file path or
+// a data: URI is logged through redactData - a data: URI is replaced as a whole.
+// (Label assumption: a value that is not a data: URI is a file path, which is
+// public; a data: URI is secret.)
+//@ axiom !secret("data:xxxxx") && !secret("cert") && !secret("key") && !secret("loading TLS certificate") && !secret("loading TLS certificate from %s and %s")
+//@ pred isDataURI(s string) = len(s) >= 5 && s[0] == 100 && s[1] == 97 && s[2] == 116 && s[3] == 97 && s[4] == 58
+//@ func redactData
+//@ property C19
+//@ pure
+//@ ensures isDataURI(s) ==> result == "data:xxxxx"
+//@ ensures !isDataURI(s) ==> result == s
+//@ pure forwarder.httpsTLSConfigTemplate forwarder.h2TLSConfigTemplate
+// (a debug line of the start-up code: every string it is given is free of secrets)
+//@ contract logNoSecret(l log.StructuredLogger, msg string, a []any)
+//@ pure
+//@ requires !secret(msg)
+//@ requires forall i int {a[i]} :: 0 <= i && i < len(a) && (a[i] is string) ==> !secret(a[i].(string))
+//@ func (*HTTPProxy).configureHTTPS
+//@ property C19
+//@ callas (log.StructuredLogger).Debug logNoSecret
+//@ requires hp != nil && hp.log != nil && !secret(hp.config.HTTPServerConfig.TLSServerConfig.CertFile) && (!isDataURI(hp.config.HTTPServerConfig.TLSServerConfig.KeyFile) ==> !secret(hp.config.HTTPServerConfig.TLSServerConfig.KeyFile))
+//@ modifies **
+//@ func (*HTTPServer).configureHTTPS
+//@ property C19
+//@ callas (log.StructuredLogger).Debug logNoSecret
+//@ requires hs != nil && hs.log != nil && hs.srv != nil && !secret(hs.config.TLSServerConfig.CertFile) && (!isDataURI(hs.config.TLSServerConfig.KeyFile) ==> !secret(hs.config.TLSServerConfig.KeyFile))
+//@ modifies **
+//@ func (*HTTPServer).configureHTTP2
+//@ property C19
+//@ callas (log.StructuredLogger).Debug logNoSecret
+//@ requires hs != nil && hs.log != nil && hs.srv != nil && !secret(hs.config.TLSServerConfig.CertFile) && (!isDataURI(hs.config.TLSServerConfig.KeyFile) ==> !secret(hs.config.TLSServerConfig.KeyFile))
+//@ modifies **
+
 // The MITM filter installed by configureProxy (C07): a CONNECT is intercepted
 // only when the mitm-domains list matches its host.
 //@ func (*HTTPProxy).configureProxy$1
